@@ -215,6 +215,13 @@ func optB(p *bool) string {
 	}
 	return "(Some " + vh.BoolTerm(*p) + ")"
 }
+// patterns are emitted as code points (the Coq regular-expression model reads code points)
+func optRunes(p *string) string {
+	if p == nil {
+		return "None"
+	}
+	return "(Some " + vh.RunesTerm(*p) + ")"
+}
 func optS(p *string) string {
 	if p == nil {
 		return "None"
@@ -267,7 +274,7 @@ func (t FTy) Coq() string {
 	case TStr:
 		r := "None"
 		if t.Str != nil {
-			r = fmt.Sprintf("(Some (SR %s %s %s))", optS(t.Str.Pat), optN(t.Str.Min), optN(t.Str.Max))
+			r = fmt.Sprintf("(Some (SR %s %s %s))", optRunes(t.Str.Pat), optN(t.Str.Min), optN(t.Str.Max))
 		}
 		return fmt.Sprintf("(TStr %s %s %s)", optS(t.SFormat), r, t.List.Coq())
 	case TBytes:
@@ -294,7 +301,7 @@ func (t FTy) Coq() string {
 		case KInformal:
 			f = "(Some KInformal)"
 		case KCustom:
-			f = "(Some (KCustom " + vh.BytesTerm(t.KPat) + "))"
+			f = "(Some (KCustom " + vh.RunesTerm(t.KPat) + "))"
 		case KUuid:
 			f = "(Some KUuid)"
 		case KId62:
